@@ -119,9 +119,14 @@ func newSeqGen(r *RNG, tier string, profile string) *seqGen {
 	g.ifs = sizes[r.Intn(len(sizes))]
 	g.pfs = sizes[r.Intn(len(sizes))]
 	if profile == "c04" || profile == "c11" || profile == "c13" || profile == "c07" {
-		// GC needs several files
-		g.ifs = []int{1, 33, 64, 200}[r.Intn(4)]
+		// GC needs several files; index files holding several records exercise marking, merging of free spans across
+		// cycles and truncation with live records behind them
+		g.ifs = []int{1, 33, 64, 64, 100, 200, 200}[r.Intn(7)]
 		g.pfs = []int{1, 33, 64, 200}[r.Intn(4)]
+	}
+	if profile == "c02" && r.Bool(50) {
+		g.ifs = []int{33, 64, 100, 200}[r.Intn(4)]
+		g.pfs = []int{33, 64, 200}[r.Intn(3)]
 	}
 	g.imm = 0
 	if r.Bool(25) {
@@ -411,7 +416,7 @@ func (g *seqGen) Next(r *RNG, hist []Op) (Op, bool) {
 	}
 	g.step++
 	hx := hex.EncodeToString
-	gcOK := g.kind == "mh" && (g.profile == "c10run" || g.profile == "c04" || g.profile == "c11" || g.profile == "c13" || g.profile == "all" || g.profile == "c07")
+	gcOK := g.kind == "mh" && (g.profile == "c02" || g.profile == "c10run" || g.profile == "c04" || g.profile == "c11" || g.profile == "c13" || g.profile == "all" || g.profile == "c07")
 	reopenOK := g.profile == "c10run" || g.profile == "c02" || g.profile == "all" || g.profile == "c04" || g.profile == "c13" || g.profile == "c07" || g.profile == "c09"
 	wGC, wReopen := 0, 0
 	if gcOK {
@@ -503,7 +508,7 @@ func (g *seqGen) Next(r *RNG, hist []Op) (Op, bool) {
 			}
 			g.pending = append(g.pending, mkOp("view"), mkOp("disk"), mkOp("sizes"))
 			g.readBackAll()
-			if r.Bool(45) {
+			if r.Bool(50) {
 				return mkOp("igc", "scanfree", strconv.Itoa(r.Intn(2)), "budget", budget), true
 			}
 			lowuse := []int{0, 50, 85, 100, 85, 85}[r.Intn(6)]
